@@ -164,6 +164,63 @@ fn high_level_cycles(len: usize, st: &mut Stats, sink: &Sink) {
     }
 }
 
+/// f32, streams longer than 2^24 values on which every partial sum is exactly representable: a
+/// level L with one excursion pair (L+d, L-d) every P values. The exact mean is L whenever the pairs
+/// are complete and the exact sum of squared deviations is 2 d^2 per pair, so the reference needs no
+/// floating point. A count kept in the float type stops at 2^24; an accumulator that is fed
+/// representable chunks does not. Judged at 2^24 - 1 and at the end: mean within 1e-4 L, standard
+/// deviation within 1 %.
+fn f32_past_2_24(len: usize, st: &mut Stats, sink: &Sink) {
+    let spec = crate::spec::mk(Kind::WelfordRolling, 0, Spec::echo());
+    for (level, d, period) in [(100.0f32, 64.0f32, 8192usize), (64.0, 32.0, 2048)] {
+        st.configs += 1;
+        let r = crate::explore::guard(|| {
+            let mut v = build::<f32>(&spec);
+            let mut pairs = 0u64;
+            for i in 0..len {
+                let x = match i % period {
+                    0 => level + d,
+                    1 => {
+                        pairs += 1;
+                        level - d
+                    }
+                    _ => level,
+                };
+                v.update(x);
+                if i % period == 0 || !(i + 1 == (1 << 24) - 1 || i + 1 == len || i + 1 == (1 << 24) + (1 << 20)) {
+                    continue;
+                }
+                let n = (i + 1) as f64;
+                let want_std = (2.0 * (d as f64) * (d as f64) * pairs as f64 / n).sqrt();
+                let (mean, _) = v.aux().expect("welford accessors");
+                let got = v.last().map(|s| s as f64);
+                let ok_mean = ((mean as f64) - level as f64).abs() <= 1e-4 * level as f64;
+                let ok_std = matches!(got, Some(g) if (g - want_std).abs() <= 0.01 * want_std);
+                if !ok_mean || !ok_std {
+                    return Some((i, format!("after {} values: mean() = {:e} (exact {:e}), last() = {:?} (exact population standard deviation {:e})", i + 1, mean, level, got, want_std)));
+                }
+            }
+            None
+        });
+        st.transitions += len as u64;
+        st.states += len as u64;
+        st.oracle_evals += 3;
+        st.traces += 1;
+        let shape: Vec<f64> = (0..12).map(|i| match i % period { 0 => (level + d) as f64, 1 => (level - d) as f64, _ => level as f64 }).collect();
+        match r {
+            Ok(Some((_, dsc))) => {
+                sink.push(Violation::new("C13", &spec, "long-run", "f32", &shape, format!("level {} with one pair ({}, {}) every {} values (the listed operations show only the first 12): {}", level, level + d, level - d, period, dsc)).tag("f32_past_2^24"));
+                return;
+            }
+            Ok(None) => {}
+            Err(m) => {
+                sink.push(Violation::new("C13", &spec, "panicked", "f32", &shape, m));
+                return;
+            }
+        }
+    }
+}
+
 pub fn run(ctx: &Ctx) -> CheckOutput {
     let quick = ctx.tier == Tier::Quick;
     let mut jobs: Vec<Job> = vec![];
@@ -213,6 +270,13 @@ pub fn run(ctx: &Ctx) -> CheckOutput {
         let sink = Sink::new();
         high_level_cycles(if quick { 100_000 } else { 1_000_000 }, &mut st, &sink);
         JobOut { stats: st, viols: sink.take(), samples: vec![json!({"explorer":"LONG","view":"WelfordRolling","driver":"level 2^40 and 1e10 plus every cycle over {0,1,3} of period<=3"})] }
+    }));
+    jobs.push(Box::new(move || {
+        let mut st = Stats::default();
+        let sink = Sink::new();
+        let len = if quick { (1usize << 24) + (1 << 21) } else { (1usize << 25) + 2 };
+        f32_past_2_24(len, &mut st, &sink);
+        JobOut { stats: st, viols: sink.take(), samples: vec![json!({"explorer":"LONG","scalar":"f32","view":"WelfordRolling","driver":"level with one exactly representable excursion pair per period, two shapes","steps":len})] }
     }));
     let o = run_jobs(jobs, ctx.seed);
     CheckOutput {
